@@ -79,6 +79,8 @@ let () =
     match split_ws line with
     | [] -> ()
     | "#case" :: _ -> print_endline line; d := init_db (nat_of_int 2)
+    | "at" :: _ -> print_endline "ok"   (* `at <point> <k>`: the next k ops run inside the following op at a hook point
+                                            that precedes any of its effects: same as running them first *)
     | f ->
       (match (try Some (parse_op f) with _ -> None) with
        | None -> Printf.printf "E unknown op: %s\n" line
